@@ -7,24 +7,37 @@ Record case := mkCase {
   c_method : method; c_p : nat; c_lab : list Z; c_rows : list (list Q);
   c_noise : list (list Q); c_pl : Q; c_pw : Q; c_remove_mean : bool;
   c_lg : list (Q * Q);
-  o_lab : list Z; o_vals : list Q }.
+  o_lab : list Z; o_vals : list (option Q) }.
 
 Definition lookup (t : list (Q * Q)) (x : Q) : Q :=
   match find (fun p => Qeq_bool (fst p) x) t with Some p => snd p | None => 0 end.
 
-Definition model_vals (c : case) : list Q :=
-  let means := cond_means_sorted QOps (c_p c) (c_lab c) (c_rows c) in
+(* values keyed by the labels the implementation reports ([labs_out]); a pair is NaN (None) exactly when
+   one of its labels does not occur in this dataset (list of datasets with different condition sets) *)
+Definition model_vals (c : case) (labs_out : list Z) : list (option Q) :=
+  let means := cond_means_in QOps labs_out (c_p c) (c_lab c) (c_rows c) in
   let means' := if c_remove_mean c then demean QOps means else means in
-  match c_method c with
-  | Euclid => rdm_of (d_euclid QOps (c_p c)) means'
-  | Mahal => rdm_of (d_mahal QOps (c_noise c) (c_p c)) means'
-  | Poisson => rdm_of (d_poisson QOps (lookup (c_lg c)) (c_p c))
-                 (map (prior QOps (c_pl c) (c_pw c)) means)
-  | Corr => rdm_of (d_corr QOps) means
-  end.
+  let lm := combine labs_out (match c_method c with
+                              | Poisson => map (prior QOps (c_pl c) (c_pw c)) means
+                              | Corr => means
+                              | _ => means' end) in
+  let present l := memZ l (c_lab c) in
+  let d := match c_method c with
+           | Euclid => d_euclid QOps (c_p c)
+           | Mahal => d_mahal QOps (c_noise c) (c_p c)
+           | Poisson => d_poisson QOps (lookup (c_lg c)) (c_p c)
+           | Corr => d_corr QOps
+           end in
+  triu_map (fun a b => if present (fst a) && present (fst b) then Some (d (snd a) (snd b)) else None) lm.
 
-Definition check (c : case) : nat :=
-  let ok := Zlist_eqb (o_lab c) (sort_uniq (c_lab c)) && Qclose_list tol9 (model_vals c) (o_vals c) in
+(* shared = true: calc_rdm on a list of datasets with a condition descriptor (from_partials): the
+   pattern list is the union of the datasets' sorted labels in order of first appearance *)
+Definition check_one (shared : bool) (allp : list Z) (c : case) : bool :=
+  let want := if shared then allp else sort_uniq (c_lab c) in
+  Zlist_eqb (o_lab c) want && Qclose_optlist tol9 (model_vals c (o_lab c)) (o_vals c).
+
+Definition check_all (sc : bool * list case) : nat :=
+  let cs := snd sc in
+  let allp := uniq_first (concat (map (fun c => sort_uniq (c_lab c)) cs)) in
+  let ok := forallb (check_one (fst sc) allp) cs in
   verdict ok ok.
-
-Definition check_all (cs : list case) : nat := fold_right Nat.max 0%nat (map check cs).
